@@ -68,6 +68,31 @@ def random_cases(p):
                 break
         if cplx != len(labels):
             fails.append({"labels": labels, "error": "tree_to_aifeyn reports complexity %r for %d labels" % (cplx, len(labels))})
+    # trees with many parameters (two-digit parameter numbers): sums of k terms a_i * x^i / a_i, k = 9 .. 21
+    for k in p.get("many_params", [9, 10, 11, 12, 15, 20, 21]):
+        terms = []
+        for i in range(k):
+            t = ["a%d" % i]
+            for _ in range(i % 3):
+                t = ["*"] + t + ["x"]
+            terms.append(t)
+        labels = []
+        for i, t in enumerate(terms):
+            labels += (["+"] if i < k - 1 else []) + t
+        want = formula(labels)
+        cases += 1
+        distinct += 1
+        try:
+            got = float(g.aifeyn_complexity(list(labels), ["a%d" % j for j in range(k)]))
+            with quiet():
+                got_api, cplx = fs.tree_to_aifeyn(list(labels), basis, verbose=False)
+        except Exception as e:
+            fails.append({"labels": labels, "error": "aifeyn raised %s: %s on a tree with %d parameters" % (type(e).__name__, e, k)})
+            continue
+        for nm, v in (("aifeyn_complexity", got), ("fit_single.tree_to_aifeyn", float(got_api))):
+            if not abs(v - want) <= 1e-9 * max(1, abs(want)):
+                fails.append({"labels": labels, "error": "%s gives %r for a tree with %d parameters (a0..a%d), formula k ln(n) + sum ln|c| gives %r" % (nm, v, k, k - 1, want)})
+                break
     return {"cases": cases, "distinct": distinct, "failures": fails[:5]}
 
 
